@@ -73,6 +73,7 @@ SetIn(idx, ty, st, n, x, v) ==
 
 \* whether these conversions succeed on every value is the subject of C04/C05/C09 (JSON) -- here only their purity is judged
 Tolerated == {"todict", "tojson", "topydict", "repr"}
+Rejected == {"parse_bad", "fromdict_bad"}
 Observers == {"get", "getin", "bytes", "len", "bool", "repr", "todict", "tojson", "topydict", "eqself", "observe", "mutcopy"}
 Copiers == {"copy", "deepcopy", "pickle"}
 
@@ -92,6 +93,14 @@ Effect(idx, ty, st, e) ==
     [] e.op = "append" -> [st EXCEPT !.val[e.f] = [k |-> "list", xs |-> Append(@.xs, Norm(e.v))]]
     [] e.op = "mapset" -> LET nk == Norm(e.key)  nv == Norm(e.v)  old == st.val[e.f].f IN
                           [st EXCEPT !.val[e.f] = [k |-> "map", f |-> [x \in (DOMAIN old) \cup {nk} |-> IF x = nk THEN nv ELSE old[x]]]]
+    \* an operation that was *rejected* (malformed bytes / an invalid document given to a live object; the caller caught the
+    \* exception and goes on using the object).  How much of the input took effect before the rejection is not the properties'
+    \* business: the state is taken from what the object now shows - and everything Judge demands of a message (its encoding
+    \* denotes that value, oneof members readable exactly when selected, is_set, JSON keys, framing, dict round trip ...) is
+    \* demanded of it, now and after every later call.
+    [] e.op \in Rejected -> IF e.obs.err # "" THEN st
+                            ELSE LET d == SpecDecode(idx, ty, e.obs.wire) IN
+                                 [st EXCEPT !.val = NormMsg(e.obs.val), !.unk = IF d.ok THEN d.unk ELSE st.unk]
     [] OTHER -> st                                   \* observers and copies do not change what is observed
 
 IsMember(idx, ty, n) == idx[ty].byname[n].card = "oneof"
@@ -131,7 +140,7 @@ DictJudged(o, op, val) ==
 
 Judge(idx, ty, st, e, want, judgeLen) ==
   LET o == e.obs  ov == NormMsg(o.val) IN
-  IF e.res # want /\ e.op \notin Tolerated
+  IF e.res # want /\ e.op \notin Tolerated \cup Rejected
   THEN Fail(st, "op_" \o e.op \o "_result_" \o e.res, want)
   ELSE IF o.err # "" THEN Fail(st, "observation_raises_" \o o.err, "")
   ELSE IF ~SameVal(ov, st.val) THEN Fail(st, "observed_value_after_" \o e.op, DiffVal(ov, st.val))
@@ -151,6 +160,7 @@ Judge(idx, ty, st, e, want, judgeLen) ==
     ELSE IF "isset" \in DOMAIN o /\ \E n \in DOMAIN st.val : idx[ty].byname[n].card = "optional" /\ n \in DOMAIN o.isset /\ o.isset[n] # Readable(st, n)
          THEN Fail(st, "is_set_of_optional_field_after_" \o e.op,
                    { n \in DOMAIN st.val : idx[ty].byname[n].card = "optional" /\ n \in DOMAIN o.isset /\ o.isset[n] # Readable(st, n) })
+    ELSE IF "rteq" \in DOMAIN o /\ ~o.rteq /\ ~MsgHasNaN(ov) THEN Fail(st, "not_equal_to_its_own_reparsed_encoding_after_" \o e.op, "")
     ELSE IF e.op \in Copiers /\ ~e.eq THEN Fail(st, e.op \o "_not_equal_to_original", "")
     ELSE IF e.op \in Copiers /\ ~e.samebytes THEN Fail(st, e.op \o "_bytes_differ_from_original", "")
     ELSE IF judgeLen /\ LenJudged(o, e.op)[1] # "" THEN Fail(st, LenJudged(o, e.op)[1], LenJudged(o, e.op)[2])
